@@ -220,6 +220,7 @@ def run(ck):
 
     # ---- C05.4 seeds
     seeds(ck, "C05.4")
+    seeds_over_all_references(ck, "C05.9")
 
     # ---- C05.5 best mode sorted by query id
     if "best" in modes:
@@ -326,6 +327,42 @@ def groupby_inputs_sorted(ck, rule, only_functions=None):
     if only_functions is None:
         ck.floor(f"{rule} groupby sites judged", n_gb, 5)
     return n_gb
+
+
+def seeds_over_all_references(ck, rule):
+    """the seed selection sees the correlations of every reference (both strands) at once: selectPeaks is applied to the
+    flattened per-reference correlations of the whole reference list the worker received - not reference by reference, which
+    would keep count x references seeds and let a seed outside the global top count produce the record"""
+    from ..rules.common import path_terms
+    ck.clause(rule, "the top-count seeds are chosen once, over the correlations of all references and both strands")
+    ctx = ck.ctx
+    fn = ctx.p.find_method("_WorkflowCoordinator", "__align")
+    params = [pp.name for pp in fn.call_params()]
+    refs = V(params[0])
+    calls = []
+    for pa in explore(ck, fn, unroll=(0, 1)):
+        for t, facts, node, kind in path_terms(pa):
+            for x in T.subterms(t):
+                if x[0] == "app" and x[1].endswith("PeaksSelector.selectPeaks") and not any(x == y for y, _ in calls):
+                    calls.append((x, node))
+    ck.floor(f"{rule} selectPeaks calls in the worker", len(calls), 1)
+    for x, node in calls:
+        arg = list(dict(x[3]).values())[0] if x[3] else None
+        w = where(fn, node)
+        ok = arg is not None and arg[0] == "comp" and len(arg[3]) == 2 and arg[3][0][0] == refs and not arg[3][0][1] \
+            and arg[3][1][0][0] == "app" and arg[3][1][0][1].endswith("__getPrimaryCorrelations") and not arg[3][1][1] \
+            and arg[2][0] == "bv"
+        per_reference = arg is not None and arg[0] == "app" and arg[1].endswith("__getPrimaryCorrelations")
+        if ok:
+            ck.ok(rule, short(fn) + ":selection-input", w, "selectPeaks receives the correlations of every reference the worker "
+                  "was given, flattened into one sequence", T.show(arg)[:200])
+        elif per_reference:
+            ck.violation(rule, short(fn) + ":selection-input", w, "selectPeaks is applied to one reference's correlations at a time: "
+                         "up to count seeds survive per reference, and a seed outside the global top count can produce the record",
+                         found=T.show(arg)[:240],
+                         required=f"chain.from_iterable(__getPrimaryCorrelations(r, query) for r in {params[0]})")
+        else:
+            raise AnalysisError(f"{w}: what selectPeaks is applied to is not recognised: {T.show(arg)[:200] if arg else None}")
 
 
 def seeds(ck, rule):
